@@ -144,7 +144,17 @@ def _measure(ctx, col, cls, file):
 
 
 
+def _history_is_plain(ctx, cls):
+    """R7.1 / R7.6 / R7.8 read `self.value_history` / `self.history_index` as plain attributes of the solver; when they are
+    properties (e.g. delegating to a collaborator object) the buffer lives elsewhere and these rules cannot follow it."""
+    for a in ("value_history", "history_index"):
+        if ctx.ct.is_property(cls, a):
+            raise AnalysisError(f"PeriodicValueIteration.{a} is a property, not a plain attribute: the history buffer is kept behind it "
+                                "(collaborator object?); R7.1 / R7.6 / R7.8 cannot be decided")
+
+
 def _step(ctx, col, cls, file):
+    _history_is_plain(ctx, cls)
     NEW, OLD, h, P, H, n, g = S("NEW"), S("OLD"), S("h"), S("P"), S("HIST"), S("n"), S("g")
     # --- R7.6 the step
     I2 = solver_interp(ctx, cls, "span", extra_facts={
@@ -206,6 +216,7 @@ def _order_and_sweep(ctx, col, cls, file):
 
 
 def _initial_history(ctx, col, cls, file):
+    _history_is_plain(ctx, cls)
     # R7.8
     I4 = solver_interp(ctx, cls, "span", extra_facts={"period": S("self.period")})
     I4.call_method("_initialize_solver_state_elements")
